@@ -100,6 +100,21 @@ Theorem C14_submitter_level :
 Proof. exact submitter_level. Qed.
 Print Assumptions C14_submitter_level.
 
+(* attribute changes: disable() / enable() leave the write path alone (the code neither empties the queue nor resolves
+   pending futures on disable), so every theorem above covers values pending at disable time: they are still written in
+   submission order and their submitters are told the result of their own driver call; and no accepted trace contains a
+   step that removes a queued entry in any other way ([Discard]) *)
+Theorem C14_disable_keeps_write_path :
+  forall cap s e s', e = Disable \/ e = Enable -> step cap s e = Some s' ->
+    write_q s' = write_q s /\ wl s' = wl s /\ results s' = results s /\ next s' = next s /\ delivered s' = delivered s
+    /\ reading s' = reading s /\ direct s' = direct s.
+Proof. exact disable_keeps_write_path. Qed.
+Print Assumptions C14_disable_keeps_write_path.
+
+Theorem C14_no_discard : forall cap tr s, run cap init tr = Some s -> forall t, ~ In (Discard t) tr.
+Proof. exact no_discard. Qed.
+Print Assumptions C14_no_discard.
+
 (* the executable specification that is run against the implementation holds of every accepted trace *)
 Theorem C14_spec_holds_of_accepted :
   forall cap tr s, run cap init tr = Some s -> spec_code cap false tr = 0.
@@ -109,17 +124,18 @@ Print Assumptions C14_spec_holds_of_accepted.
 (* non-vacuity: capacity 2; three submissions while the first write is at the driver, the third overflows and ticket 1 (the
    oldest queued) fails; a read waits behind a read; the driver sees 10, 13 *)
 Example C14_nonvacuous :
-  let tr := [ReadRequest SrcPass; ReadStart SrcPass; ReadRequest SrcLoad;
+  let tr := [Enable; ReadRequest SrcPass; ReadStart SrcPass; ReadRequest SrcLoad;
              WriteSubmit 10 0 None; WriteTake 10 0; WriteStart 10;
              WriteSubmit 11 1 None; WriteSubmit 12 2 None; WriteSubmit 13 3 (Some 1%nat); Deliver 1 TQueueFull;
              ReadEnd SrcPass OVal; ReadStart SrcLoad;
              WriteEnd WOk; Deliver 0 TOk; Told 0 TOk; ApiTold 0 true; Told 1 TQueueFull; ApiTold 1 false;
              ReadRequest SrcLoad; ReadCancel SrcLoad;
-             LoopResume; WriteTake 12 2; WriteStart 12; Snap true true 1]%Z in
+             Disable; LoopResume; WriteTake 12 2; WriteStart 12; Snap true true 1]%Z in
   exists s, run 2 init tr = Some s
     /\ failed tr = [1] /\ driver_writes tr = [10; 12]%Z /\ pending_values s = [13]%Z
     /\ map fst (surviving tr) = [10; 12; 13]%Z /\ reads_in_flight s = 1 /\ writes_in_flight s = 1
     /\ run 2 init (tr ++ [ReadStart SrcPass]) = None /\ run 2 init (tr ++ [DirectStart 5%Z]) = None
     /\ run 2 init (tr ++ [WriteTake 13 3]) = None /\ run 2 init (tr ++ [Told 2 TOk]) = None
-    /\ run 2 init (tr ++ [Told 1 TOk]) = None /\ run 2 init (tr ++ [ReadCancel SrcLoad]) = None.
+    /\ run 2 init (tr ++ [Told 1 TOk]) = None /\ run 2 init (tr ++ [ReadCancel SrcLoad]) = None
+    /\ run 2 init (tr ++ [Discard 3]) = None /\ run 2 init (tr ++ [ReadRequest SrcPass]) = None.
 Proof. eexists. vm_compute. repeat split. Qed.
